@@ -17,6 +17,7 @@
 import AITB.Model.Num
 import AITB.Model.MDP
 import AITB.Gen.Constants
+import AITB.Model.PlanOps
 
 namespace AITB.POMDP
 open AITB.MDP (sumTo maxTo argmaxTo Vec mkVec absR)
@@ -409,5 +410,165 @@ def checkChain (m : Model) (τ : Rat) : List Vec → List (List Vec) → Bool
 def lastOf (prev : List Vec) : List (List Vec) → List Vec
   | [] => prev
   | cur :: rest => lastOf cur rest
+
+/-! ## Witness: the per-action agenda loop of `Witness::operator()` (LP `findWitness` = oracle parameter) -/
+
+/-- a VEntry's `observations`: for each observation the index of the chosen projection -/
+abbrev Choice := List Nat
+
+/-- the projection chosen for observation `o` -/
+def choiceVecAt (n : Nat) (P : Nat → List Vec) (c : Choice) : Nat → Vec := fun o => (P o).getD (c.getD o 0) (vzero n)
+
+/-- the VEntry's values: Σ_o projs[o][c[o]] -/
+def choiceSum (n k : Nat) (P : Nat → List Vec) (c : Choice) : Vec := sumVecTo n k (choiceVecAt n P c)
+
+/-- every `vObs` that `addVariations(projs, variated)` visits: for each o, every i ≠ variated.observations[o] -/
+def allVars (k : Nat) (P : Nat → List Vec) (c : Choice) : List Choice :=
+  (List.range k).flatMap (fun o => ((List.range (P o).length).filter (fun i => i != c.getD o 0)).map (fun i => c.set o i))
+
+/-- the body of `addVariations`: skip what is in `triedVectors_`, otherwise record it and push it on the agenda -/
+def addVars (vs : List Choice) (ag tr : List Choice) : List Choice × List Choice :=
+  vs.foldl (fun p v => if v ∈ p.2 then p else (v :: p.1, v :: p.2)) (ag, tr)
+
+/-- U[a] (as choices), `agenda_` (head = `back()`), `triedVectors_` -/
+structure WState where
+  U : List Choice
+  agenda : List Choice
+  tried : List Choice
+
+/-- one iteration of `while ( !agenda_.empty() )`: `findWitness(agenda_.back())`; a witness point `w` yields
+    `crossSumBestAtBelief(w, projections[a], a)` (here `best w`), which joins U and whose variations join the agenda (the examined
+    entry stays); no witness pops the entry -/
+def wStep (n k : Nat) (P : Nat → List Vec) (oracle : List Vec → Vec → Option Vec) (best : Vec → Choice) (st : WState) : WState :=
+  match st.agenda with
+  | [] => st
+  | v :: rest =>
+    match oracle (st.U.map (choiceSum n k P)) (choiceSum n k P v) with
+    | some w =>
+      let r := addVars (allVars k P (best w)) (v :: rest) st.tried
+      ⟨st.U ++ [best w], r.1, r.2⟩
+    | none => ⟨st.U, rest, st.tried⟩
+
+def wLoop (n k : Nat) (P : Nat → List Vec) (oracle : List Vec → Vec → Option Vec) (best : Vec → Choice) : Nat → WState → WState
+  | 0, st => st
+  | f+1, st => wLoop n k P oracle best f (wStep n k P oracle best st)
+
+/-- `addDefaultEntry`: the all-zero choice is tried and is the only agenda entry; U is empty -/
+def wInit (k : Nat) : WState := ⟨[], [List.replicate k 0], [List.replicate k 0]⟩
+
+/-! ## `findBestAtPoint` with its tie-break, and `crossSumBestAtBelief` built on it -/
+
+/-- `veccmp(a, b) > 0`: at the first index where they differ, `a` is larger -/
+def vecGt : Nat → Vec → Vec → Bool
+  | 0, _, _ => false
+  | n+1, a, b => vecGt n a b || (allLt n (fun i => decide (a.get i = b.get i)) && decide (b.get n < a.get n))
+
+/-- `findBestAtPoint(point, begin, end)` as written: scan forward, replace on a larger value or on an equal value with a
+    lexicographically greater vector -/
+def bestAtV (n : Nat) (b : Vec) : List Vec → Vec
+  | [] => vzero n
+  | x :: r => r.foldl (fun best y =>
+      if dot n b best < dot n b y || (decide (dot n b y = dot n b best) && vecGt n y best) then y else best) x
+
+def bestRowToV (n : Nat) (b : Vec) : Nat → (Nat → List Vec) → Vec
+  | 0, _ => vzero n
+  | k+1, P => vadd n (bestRowToV n b k P) (bestAtV n b (P k))
+
+/-- `crossSumBestAtBelief(b, projs)` with `findBestAtPoint`'s tie-break inside each observation; first action on equal values -/
+def bestBackupAtV (m : Model) (τ : Rat) (Γ : List Vec) (b : Vec) : Vec :=
+  let val := fun a => dot m.S b (bestRowToV m.S b m.O (projList m τ Γ a))
+  bestRowToV m.S b m.O (projList m τ Γ (argmaxTo (m.A - 1) val))
+
+/-! ## LinearSupport: the agenda loop of `LinearSupport::operator()` for one timestep (vertex enumeration = oracle parameter) -/
+
+/-- `struct Vertex { belief, support, currentValue, error }` -/
+structure LSVertex where
+  belief : Vec
+  support : Vec
+  currentValue : Rat
+  error : Rat
+
+/-- goodSupports, agenda_, triedVertices, and the `vertices` batch to examine next -/
+structure LSState where
+  good : List Vec
+  agenda : List LSVertex
+  tried : List Vec
+  verts : List Vec
+
+/-- the `for` over `vertices`: skip tried ones; `trueValue`/`support` from `crossSumBestAtBelief(vertex, projections)` (= `sup vertex`),
+    `currentValue` recomputed with `findBestAtPoint` over goodSupports; push when `acc (trueValue - currentValue)`
+    (`diff > tolerance_ && checkDifferentGeneral(diff, tolerance_)`); always mark tried -/
+def lsScan (m : Model) (sup : Vec → Vec) (acc : Rat → Bool) (good : List Vec) :
+    List Vec → List LSVertex → List Vec → List LSVertex × List Vec
+  | [], ag, tr => (ag, tr)
+  | x :: xs, ag, tr =>
+    if tr.any (fun y => y == x) then lsScan m sup acc good xs ag tr
+    else
+      let sp := sup x
+      let cur := env m.S good x
+      let diff := dot m.S x sp - cur
+      lsScan m sup acc good xs (if acc diff then ag ++ [⟨x, sp, cur, diff⟩] else ag) (x :: tr)
+
+/-- `agenda_.top()`: an entry of largest error (first one among equals) -/
+def lsTop : List LSVertex → Option LSVertex
+  | [] => none
+  | [v] => some v
+  | v :: w :: r => match lsTop (w :: r) with
+    | some t => if t.error < v.error then some v else some t
+    | none => some v
+
+/-- one pass of the `do { … } while (true)` body; `none` = `break` (agenda empty after the scan) -/
+def lsStep (m : Model) (sup : Vec → Vec) (acc : Rat → Bool) (oracle : Vec → List Vec → List Vec) (st : LSState) : Option LSState :=
+  let r := lsScan m sup acc st.good st.verts st.agenda st.tried
+  match lsTop r.1 with
+  | none => none
+  | some best =>
+    -- pop `best`, then erase every entry the new support makes obsolete
+    let rest := (r.1.filter (fun v => !(v.belief == best.belief && v.support == best.support))).filter
+                  (fun v => !(decide (v.currentValue < dot m.S v.belief best.support)))
+    some ⟨st.good ++ [best.support], rest, r.2, oracle best.support st.good⟩
+
+def lsLoop (m : Model) (sup : Vec → Vec) (acc : Rat → Bool) (oracle : Vec → List Vec → List Vec) : Nat → LSState → LSState
+  | 0, st => st
+  | f+1, st => match lsStep m sup acc oracle st with
+    | none => { st with agenda := [], tried := (lsScan m sup acc st.good st.verts st.agenda st.tried).2, verts := [] }
+    | some st' => lsLoop m sup acc oracle f st'
+
+/-- unit vector e_s -/
+def cornerB (n s : Nat) : Vec := mkVec n (fun i => if i = s then 1 else 0)
+
+/-- supports of the corners, duplicates dropped (`allSupports.emplace` / `inserted`) -/
+def lsCorners (m : Model) (sup : Vec → Vec) : Nat → List Vec
+  | 0 => []
+  | s+1 =>
+    let g := lsCorners m sup s
+    let sp := sup (cornerB m.S s)
+    if g.any (fun y => y == sp) then g else g ++ [sp]
+
+/-- convex combination Σ λ_i x_i of weighted points -/
+def combo (n : Nat) (L : List (Rat × Vec)) : Vec := mkVec n (fun s => (L.map (fun p => p.1 * p.2.get s)).sum)
+
+/-! ## round 2 -/
+
+/-- the per-action merge of `IncrementalPruning::operator()` run on C04's literal copy of the schedule
+    (`AITB.Plan.mergeSchedule`: front/back/stepsize/diff/elements/oddOld, constants regenerated from the source);
+    `order` only affects the observation links, not the values -/
+def ipActionM (n : Nat) (prune : List Vec → List Vec) (O : Nat) (P : Nat → List Vec) : List Vec :=
+  AITB.Plan.mergeSchedule (fun x y _ => prune (crossSum n x y)) ((List.range O).map (fun o => prune (P o)))
+
+def ipStepM (m : Model) (τ : Rat) (prune : List Vec → List Vec) (Γ : List Vec) : List Vec :=
+  prune (unionTo m.A (fun a => ipActionM m.S prune m.O (projList m τ Γ a)))
+
+def ipIterM (m : Model) (τ : Rat) (prune : List Vec → List Vec) : Nat → List Vec
+  | 0 => [vzero m.S]
+  | h+1 => ipStepM m τ prune (ipIterM m τ prune h)
+
+/-- no observation probability met while expanding the h-step tree below `b` lies in the band (0, τ]:
+    then `checkDifferentSmall(sum, 0.0)` skips exactly the zero-probability observations -/
+def skipFreeB (m : Model) (τ : Rat) : Nat → Vec → Bool
+  | 0 => fun _ => true
+  | h+1 => fun b => allLt m.A (fun a => allLt m.O (fun o =>
+      decide (vsum m.S (updU m b a o) = 0) ||
+      (decide (τ < absR (vsum m.S (updU m b a o))) && skipFreeB m τ h (vdiv m.S (updU m b a o) (vsum m.S (updU m b a o))))))
 
 end AITB.POMDP
